@@ -140,6 +140,21 @@ def generate(tier, rng):
         for rep in ([0, 0, 2], [1, 3, 3], [0, 2, 2], [3, 1, 1, 2]):
             key = dict(form="dict", entries=[["L", "a", ["list", [it[i] for i in rep]]]])
             cases.append(dict(stream="exact", uni=u4, arr=tarr, steps=[dict(op="set", key=key, rhs=dict(kind="num", c=42))]))
+    # a subset Dimension holding a contiguous ascending run of the items (historic years) together with a list on a second and a
+    # single item on a third dimension, and together with two lists: the target in every storage order, numbers and arrays
+    u3 = mk_universe((3, 3, 4), "abc")
+    import itertools as _it3
+    for pi, perm in enumerate(_it3.permutations("abc")):
+        tdims = list(perm)
+        tarr = dict(dims=tdims, values=[j + 1 for j in range(nelem(u3, tdims))], layout="CFV"[pi % 3])
+        for lo, hi in ((1, 3), (0, 2), (1, 4)):
+            sub = ["dim", subdim(u3, "c", u3["c"]["items"][lo:hi])]
+            for entries in ([["L", "c", sub], ["L", "a", ["list", [u3["a"]["items"][0], u3["a"]["items"][2]]]], ["L", "b", ["single", u3["b"]["items"][1]]]],
+                            [["L", "a", ["list", [u3["a"]["items"][2], u3["a"]["items"][1]]]], ["L", "c", sub], ["L", "b", ["list", [u3["b"]["items"][0], u3["b"]["items"][2]]]]],
+                            [["L", "b", ["single", u3["b"]["items"][2]]], ["L", "c", sub], ["L", "a", ["list", [u3["a"]["items"][1]]]]]):
+                key = dict(form="dict", entries=entries)
+                u2 = _with_sub(u3, key)
+                cases.append(dict(stream="exact", uni=u2, arr=tarr, steps=[dict(op="set", key=key, rhs=dict(kind="num", c=77))]))
     return cases
 
 
